@@ -43,6 +43,8 @@ def run_demo(repo, src, meta):
     args = ["go", "test", "-count=1", "-vet=off", "-run", name, "./" + ddir]
     if "-race" in cmd:
         args.insert(2, "-race")
+    if "-tags debug" in cmd or "-tags=debug" in cmd:
+        args[2:2] = ["-tags", "debug"]
     rc, out = sh(args, cwd=repo, timeout=900)
     for f in files:
         os.remove(os.path.join(target, f))
